@@ -10,6 +10,9 @@ CLAIMED = {
  'C02': ('proof', 'deductive VCs from the real AST (pyvc): representation invariant pKa = model + SUM established by calculate_total_pka (fold rule), ghost stale-flag sequencing proof of calculate_pka, swap/undo proof of the coupling probe on symbolic determinant lists, averaging, rendering ropes; frame census of writers',
          'INV proved to be established, preserved by the coupling probe and by averaging, and re-established on every path of calculate_pka; printed rows proved to be exactly the determinants. Numeric text (2 decimals) only by the bounded monitor.',
          'A-REAL; writers abstracted by the declared frame list; list shapes <= 4 in swap proofs'),
+ 'C07': ('proof', 'deductive VCs from the real AST (pyvc): stutter lemmas and hydrogen-absorption lemma on the record loop, element-inference VC on a symbolic atom-name field, idempotence of protonate_atom, option plumbing; syntactic column frame of Atom.set_properties and sink-only frame of serial/occupancy/B-factor',
+         'records the model ignores leave the reader state unchanged and yield nothing (all loop states, all column contents); hydrogen records are absorbed; set_properties reads only the documented columns; stored-but-unused fields reach sinks only.',
+         'stutter rule + composition step; the own-hydrogens round trip and --protonate-all rest on idempotence + bounded monitor'),
  'C08': ('proof', 'deductive VCs from the real AST (pyvc): average_of_conformations with the real clone/+=/divide/find_group inlined, for every presence pattern of two groups over 2 and 3 conformations (values symbolic) and for label twins; top_up_from_atoms by exhaustive ground evaluation over a stated atom universe against an independent specification; sort key VC',
          'average = arithmetic mean over the containing conformations, one entry per existing group: proved per presence pattern for all real values; top-up: no residue-type merging, exhaustive over the universe.',
          'patterns bounded to 2 groups x <= 3 conformations and a 7-atom universe (stated in evidence); residue identity = atom label as in the code (insertion codes: known finding D9)'),
@@ -19,6 +22,9 @@ CLAIMED = {
  'C13': ('proof', 'deductive VCs from the real AST (pyvc): stutter lemma and specification automaton for one arbitrary iteration of the record loop under chain selections; option plumbing VC + AST ground check of the argparse declaration; frame census of .chains',
          'records of unselected chains leave the reader state unchanged and yield nothing; all other records are processed as without the option - for every loop state and column content; hence (simulation rule) the atom sequence equals that of the file with those records deleted.',
          'stutter/simulation rule; composition step for the rest of the pipeline (bounded monitor: selection vs deletion on real runs)'),
+ 'C14': ('proof', 'deductive VCs from the real AST (pyvc): character-level parse of residue strings (symbolic chain/digits/icode), init_group post over list shapes incl. a symbolic entry, use_in_calculations, make_copy field frame; frame census of titrate_only / titratable readers',
+         'titratable and report flags after init_group are exactly "was titratable and listed by chain, number and insertion code"; unlisted groups stay in the conformation; parse is exact.',
+         'composition step (bounded monitor: listed vs titrated sets, all-residues list vs no option)'),
  'C15': ('proof', 'deductive VCs from the real AST (pyvc): swap/undo of the coupling probe on symbolic determinant lists (object identity, values, labels), involution of transfer_determinant, symmetric registration, positive-factor rule, star rule',
          'every return path of is_coupled_protonation_state_probability restores both groups exactly (over the reals); coupling marks symmetric as read by every consumer; star <=> partner.',
          'A-REAL (float sums after re-ordering: monitored to 1e-9); membership read through Group.__eq__ (labels; known finding D9 for insertion codes)'),
